@@ -15,6 +15,9 @@ func init() {
 // id >= 100: vSweep(id-100) (the sweep family of the trie harnesses; 54, 94, 242 have a
 // 64-aligned bitmap length / leaf count / inner-node count).
 func vIxKeys(id int) []string {
+	if id == 12 || id == 13 {
+		return vLenDiverse(id - 12)
+	}
 	if id >= 100 {
 		return vSweep(id - 100)
 	}
@@ -26,6 +29,30 @@ func vIxKeys(id int) []string {
 			lo = 13
 		}
 		ks = append(ks, string([]byte{b, lo << 4}), string([]byte{b, hi<<4 | byte(i)}))
+	}
+	return vUniqSorted(ks)
+}
+
+
+// vLenDiverse: keys whose lengths sit on and around 32/64/128/256-byte boundaries: a chain
+// of prefixes of one 300-byte pattern (lengths 0, 1, 31, 32, 33, 63, 64, 65, 127, 128, 129,
+// 255, 256, 257, 300), plus for kind 1 a diverging sibling (prefix + 0xff + 40 bytes) at
+// every length.  Short and very long keys live in one index.
+func vLenDiverse(kind int) []string {
+	base := make([]byte, 300)
+	for i := range base {
+		base[i] = byte('a' + (i*7+i/13)%23)
+	}
+	var ks []string
+	for _, l := range []int{0, 1, 31, 32, 33, 63, 64, 65, 127, 128, 129, 255, 256, 257, 300} {
+		ks = append(ks, string(base[:l]))
+		if kind == 1 {
+			sib := append(append([]byte{}, base[:l]...), 0xff)
+			for j := 0; j < 40; j++ {
+				sib = append(sib, byte('A'+j%5))
+			}
+			ks = append(ks, string(sib))
+		}
 	}
 	return vUniqSorted(ks)
 }
